@@ -109,5 +109,5 @@ func headerIndexPairRule(c *an.Ctx) {
 		}
 		c.Check(ok, key, rule, c.P.Rel(s.call.Pos()), why)
 	}
-	c.RequireMin("insertions into the header index", n, 4)
+	c.RequireMin("insertions into the header index", n, 2)
 }
